@@ -284,10 +284,20 @@ func (tx *Tx) buildBucketMetaIdx(bucket string, key []byte, bucketMetaTemp Bucke
 	}
 
 	if updateFlag {
+		if vf := verifOp("open", tx.db.getBucketMetaFilePath(bucket), 0, 0, nil); vf != nil {
+			return vf.Err
+		}
 		fd, err := os.OpenFile(tx.db.getBucketMetaFilePath(bucket), os.O_CREATE|os.O_RDWR, 0644)
 		defer fd.Close()
 		if err != nil {
 			return err
+		}
+
+		if vf := verifOp("write", fd.Name(), 0, bucketMeta.Size(), bucketMeta.Encode()); vf != nil {
+			if vf.Partial > 0 {
+				_, _ = fd.WriteAt(bucketMeta.Encode()[:vf.Partial], 0)
+			}
+			return vf.Err
 		}
 
 		if _, err = fd.WriteAt(bucketMeta.Encode(), 0); err != nil {
@@ -295,6 +305,9 @@ func (tx *Tx) buildBucketMetaIdx(bucket string, key []byte, bucketMetaTemp Bucke
 		}
 
 		if tx.db.opt.SyncEnable {
+			if vf := verifOp("sync", fd.Name(), 0, 0, nil); vf != nil {
+				return vf.Err
+			}
 			if err = fd.Sync(); err != nil {
 				return err
 			}
